@@ -3,6 +3,7 @@ work directories and a process-pool map."""
 import concurrent.futures as cf
 import hashlib
 import os
+import sys
 import random
 import shutil
 import signal
@@ -177,6 +178,9 @@ class Work:
         return p
 
     def close(self):
+        if os.environ.get("VERIF_KEEP_WORK"):       # triage aid: leave the scratch files behind
+            sys.stderr.write("[work kept] %s\n" % self.dir)
+            return
         shutil.rmtree(self.dir, ignore_errors=True)
 
     def __enter__(self):
